@@ -8,7 +8,7 @@ Definition cfg_current : vcfg :=
      f_gate_on_creddef := true; f_require_nrp := true; f_w3c_strict_subject := true;
      f_common_link := true; f_bind_schema := true; f_w3c_norm_keys := true; f_marker := true;
      f_no_index_panic := true; f_no_unwrap_panic := true; f_pred_range := true;
-     f_w3c_pred_cv := true; f_group_unrevealed := true; f_group_keys := true; f_w3c_nrp_search := true |}.
+     f_w3c_pred_cv := true; f_group_unrevealed := true; f_group_keys := true; f_w3c_nrp_search := true; f_restr_revealed_first := true |}.
 
 (* the configuration the positive theorems are about *)
 Definition cfg_fixed : vcfg :=
@@ -16,7 +16,7 @@ Definition cfg_fixed : vcfg :=
      f_gate_on_creddef := true; f_require_nrp := true; f_w3c_strict_subject := true;
      f_common_link := true; f_bind_schema := true; f_w3c_norm_keys := true; f_marker := true;
      f_no_index_panic := true; f_no_unwrap_panic := true; f_pred_range := true;
-     f_w3c_pred_cv := true; f_group_unrevealed := true; f_group_keys := true; f_w3c_nrp_search := true |}.
+     f_w3c_pred_cv := true; f_group_unrevealed := true; f_group_keys := true; f_w3c_nrp_search := true; f_restr_revealed_first := true |}.
 
 (* every repaired behaviour is in the current code (each flag was flipped with its "fix:" commit) *)
 Lemma cfg_current_is_fixed : cfg_current = cfg_fixed.
